@@ -35,6 +35,9 @@ import numpy as np
 
 from vlib import common
 from harness import nf_emulator
+from harness import c19_proc
+
+HARNESS_DIR = os.path.dirname(os.path.abspath(__file__))
 
 
 def named_dir(msg, outdir):
@@ -112,28 +115,35 @@ class FsPatch:
         def on():
             return sim.active and not sim.in_pipeline
 
-        def mkdir(path, *a, **kw):
-            if on():
-                full = _fd_path(path, kw.get("dir_fd"))
-                if not os.path.lexists(full):
-                    sim.tick("script:mkdir:" + "/".join(full.split(os.sep)[-2:]))
-            return r_mkdir(path, *a, **kw)
+        def target(a, kw):
+            try:
+                return _fd_path(a[0] if a else kw["path"], kw.get("dir_fd"))
+            except Exception as e:  # noqa
+                sim.unexpected.append("os-level call in a form the harness cannot read: %r %r (%s)" % (a, kw, e))
+                return None
 
-        def unlink(path, *a, **kw):
+        def mkdir(*a, **kw):
             if on():
-                full = _fd_path(path, kw.get("dir_fd"))
-                if os.path.lexists(full):
+                full = target(a, kw)
+                if full is not None and not os.path.lexists(full):
+                    sim.tick("script:mkdir:" + "/".join(full.split(os.sep)[-2:]))
+            return r_mkdir(*a, **kw)
+
+        def unlink(*a, **kw):
+            if on():
+                full = target(a, kw)
+                if full is not None and os.path.lexists(full):
                     sim.tick("script:unlink")
                     sim.note_removed(full)
-            return r_unlink(path, *a, **kw)
+            return r_unlink(*a, **kw)
 
-        def rmdir(path, *a, **kw):
+        def rmdir(*a, **kw):
             if on():
-                full = _fd_path(path, kw.get("dir_fd"))
-                if os.path.isdir(full) and not os.listdir(full):
+                full = target(a, kw)
+                if full is not None and os.path.isdir(full) and not os.listdir(full):
                     sim.tick("script:rmdir")
                     sim.note_removed(full)
-            return r_rmdir(path, *a, **kw)
+            return r_rmdir(*a, **kw)
 
         os.mkdir, os.unlink, os.rmdir = mkdir, unlink, rmdir
         self.new = (mkdir, unlink, rmdir)
@@ -189,6 +199,7 @@ class Sim:
         self.limit = None
         self.active = False
         self.in_pipeline = False
+        self.unexpected = []      # failures of the harness's own wrappers / raw file access: broken tie, never a finding
         self.deadline = time.time() + 120
         self.named = []           # directories the script named (and the harness removed)
         self.removed = []         # existing files / directories the script itself removed
@@ -217,7 +228,7 @@ class Sim:
         if st is not None and mine and mine[-1]["completed"]:
             self.removed_completed.append(rel)
 
-    def pipeline(self, cmd, cwd=None, **kw):
+    def pipeline(self, cmd, cwd=None):
         # every loop that drives the real script is bounded: launches per simulation and wall clock
         if len(self.emu.launches) >= 4 * (self.cfg["plates"] + self.cfg["B"]) + 10 + 4 * len(self.crashes) or time.time() > self.deadline:
             raise Runaway()
@@ -244,9 +255,13 @@ class Sim:
             lg.handlers = []
 
     def _go(self):
+        # nothing inside the script module is replaced: the process launcher is caught at subprocess.Popen (any call form)
+        with c19_proc.popen_patch(self.pipeline, lambda: self.active and not self.in_pipeline,
+                                  (nf_emulator.PipelineError,), self.unexpected.append):
+            return self._go2()
+
+    def _go2(self):
         mod = load_script(verbose=bool(self.cfg.get("verbose")))
-        # the only thing replaced inside the script module: the process launcher (nextflow is not installed)
-        mod.subprocess = types.SimpleNamespace(check_call=self.pipeline)
         B = self.cfg["B"]
         pending = list(self.crashes)
         self.limit = pending.pop(0) if pending else None
@@ -261,6 +276,8 @@ class Sim:
             except Runaway:
                 self.status = "no-termination"
             except Exception as e:  # noqa
+                if c19_proc.in_harness(e, HARNESS_DIR):
+                    self.unexpected.append("%s in harness code: %s" % (type(e).__name__, str(e)[:200]))
                 self.status = "failed:%s:%s" % (type(e).__name__, str(e)[:200])
             finally:
                 self.active = False
@@ -282,6 +299,8 @@ class Sim:
                 nd = named_dir(str(e), self.outdir)
                 outcome = ("named", nd) if nd else "failed:RuntimeError:" + str(e)[:200]
             except Exception as e:  # noqa
+                if c19_proc.in_harness(e, HARNESS_DIR):
+                    self.unexpected.append("%s in harness code: %s" % (type(e).__name__, str(e)[:200]))
                 outcome = "failed:%s:%s" % (type(e).__name__, str(e)[:200])
             finally:
                 self.active = False
@@ -353,6 +372,9 @@ def judge(sim):
     done = [r for r in sim.emu.launches if r["completed"]]
     steps = [step_of(r["outdir"]) for r in done]
     summary = {"steps": [list(s) for s in steps], "selected": [r["selected"] for r in done], "launches": len(sim.emu.launches)}
+    if sim.unexpected:
+        summary["unexpected"] = sim.unexpected[:3]
+        return [], summary
     if sim.status != "ok":
         out.append(("finish", "the simulation does not run to its end", sim.status, "ok"))
         return out, summary
@@ -450,8 +472,15 @@ def judge(sim):
             if key not in truth or truth[key] != float(s_adv.observations[i]):
                 out.append(("selection", "a revealed value is not the value of that experiment in the user's screen", [list(st), int(i)], "true value"))
                 break
-        with open(os.path.join(sub, "screen_metadata.json")) as f:
-            meta[st] = json.load(f)
+        try:
+            # raw access to a file written by batchie: its layout is part of the tie, not of the property (item 20)
+            with open(os.path.join(sub, "screen_metadata.json")) as f:
+                meta[st] = json.load(f)
+            meta[st]["n_unobserved_plates"] + 0
+        except Exception as e:  # noqa
+            sim.unexpected.append("layout: screen_metadata.json cannot be read as {n_unobserved_plates: int}: %s" % e)
+            prev_adv = adv
+            continue
         if meta[st]["n_unobserved_plates"] != len(fadv["unobserved"]):
             out.append(("metadata", "n_unobserved_plates of screen_metadata.json is not the number of unobserved plates of the advanced screen",
                         meta[st]["n_unobserved_plates"], len(fadv["unobserved"])))
@@ -464,11 +493,16 @@ def judge(sim):
         out.append(("termination", "the simulation does not stop after exactly one step per initially unobserved plate with every plate revealed once",
                     {"steps": len(done), "selected": sels, "left": facts[steps[-1]]["unobserved"] if steps else None}, {"steps": u0, "plates": facts["training"]["unobserved"]}))
     summary["final"] = facts[steps[-1]] if steps else None
+    if sim.unexpected:
+        summary["unexpected"] = sim.unexpected[:3]
+        out = []
     return out, summary
 
 
 def compare(run, ref, sref, srun):
     out = []
+    if srun.get("unexpected") or sref.get("unexpected"):
+        return out
     if srun.get("selected") != sref.get("selected"):
         out.append(("resume", "the interrupted simulation records other selections than the uninterrupted one (same seeds)", srun.get("selected"), sref.get("selected")))
     a, b = srun.get("final"), sref.get("final")
@@ -597,6 +631,11 @@ def run(ctx, res, workdir):
             res.nontrivial.add(("system", json.dumps(r["case"], sort_keys=True)))
             for c in r["classes"]:
                 res.count("class." + c)
+            if r["summary"].get("unexpected"):
+                u = r["summary"]["unexpected"]
+                res.count("layout.unexpected" if u[0].startswith("layout") else "wrapper.unexpected-call")
+                res.disagree("harness wrapper (real stream): %s" % u[0][:160], r["case"], u, "-")
+                r["findings"] = []
             for tool, n_calls in (r.get("tools") or {}).items():
                 for _ in range(n_calls):
                     res.count("class.entry-point." + tool)
